@@ -1708,3 +1708,85 @@ Proof.
     destruct nz as [|t0 nz'] eqn:Enz'; [congruence|]. rewrite Hsort.
     unfold occupied. rewrite (decode_veh_walk I W HW (iV I) 0%nat []) by lia. reflexivity.
 Qed.
+
+(* ---------- strict_graph: the constructor and add_node ---------- *)
+Lemma windows_ok_of_inv g : Inv g -> windows_ok g.
+Proof. intros HI n Hn. apply (inv_windows g HI). apply nth_In. exact Hn. Qed.
+
+Lemma add_arc_gen_frame s g o d tm c g' b :
+  add_arc_gen s g o d tm c = Ok (g', b) -> names g' = names g /\ nodes g' = nodes g.
+Proof.
+  unfold add_arc_gen. destruct (index_of o (names g)); [|discriminate].
+  destruct (index_of d (names g)); [|discriminate].
+  match goal with |- context [if ?p then Ok _ else Ok _] => destruct p end;
+    intros H; inversion H; subst; auto.
+Qed.
+
+Lemma strict_graph_add_node g nm dem lo hi g' :
+  Inv g -> strict_graph g -> add_node g nm dem lo hi = Ok g' -> strict_graph g'.
+Proof.
+  intros HI Hst H. unfold add_node in H. destruct (memb nm (names g)); [discriminate|].
+  destruct (negb (window_ok lo hi)); [discriminate|]. inversion H; subst; clear H.
+  intros i j a Hin. cbn [arcs] in Hin.
+  destruct (inv_arcs g HI _ _ Hin) as (no & nd & Hi & Hj & _). cbn [fst snd] in Hi, Hj.
+  apply nth_error_lt in Hi, Hj.
+  assert (E : forall k, (k < length (nodes g))%nat ->
+                        gnode (mkGraph (names g ++ [nm]) (nodes g ++ [mkNode nm dem lo hi]) (arcs g)) k = gnode g k).
+  { intros k Hk. unfold gnode. cbn [nodes]. apply app_nth1. exact Hk. }
+  rewrite !E by lia. apply Hst. exact Hin.
+Qed.
+
+(* a depot self-arc handed over with the graph must keep a waiting vehicle inside the depot window *)
+Definition self_arcs_ok (g : graph) : Prop :=
+  forall kv, In kv (arcs g) ->
+    index_of (aorig (snd kv)) (names g) = Some 0%nat -> index_of (adest (snd kv)) (names g) = Some 0%nat ->
+    ext_le (ext_add (nhi (gnode g 0)) (att (snd kv))) (nhi (gnode g 0)).
+
+Lemma refilter_strict g0 g1 :
+  self_arcs_ok g0 -> refilter g0 = Ok g1 ->
+  strict_graph g1 /\ names g1 = names g0 /\ nodes g1 = nodes g0.
+Proof.
+  intros Hself. unfold refilter.
+  set (step := fun (r : result graph) (kv : nat * nat * arc) =>
+         match r with
+         | Err e => Err e
+         | Ok g' =>
+             match add_arc_gen true g' (aorig (snd kv)) (adest (snd kv)) (att (snd kv)) (acost (snd kv)) with
+             | Ok (g'', _) => Ok g''
+             | Err e => Err e
+             end
+         end).
+  set (P := fun r : result graph =>
+         match r with
+         | Ok g' => strict_graph g' /\ names g' = names g0 /\ nodes g' = nodes g0
+         | Err _ => True
+         end).
+  assert (G : forall l r, (forall kv, In kv l -> In kv (arcs g0)) -> P r -> P (fold_left step l r)).
+  { induction l as [|kv l IH]; intros r Hl Hr; simpl; auto.
+    apply IH; [intros; apply Hl; simpl; auto|].
+    destruct r as [g'|e]; simpl; auto. destruct Hr as (Hst & En & Ed).
+    destruct (add_arc_gen true g' (aorig (snd kv)) (adest (snd kv)) (att (snd kv)) (acost (snd kv)))
+      as [[g'' b]|e] eqn:Ea; simpl; auto.
+    destruct (add_arc_gen_frame _ _ _ _ _ _ _ _ Ea) as [En' Ed'].
+    split; [|split; congruence].
+    eapply strict_graph_add_arc; eauto. rewrite En. unfold gnode. rewrite Ed.
+    apply (Hself kv). apply Hl. simpl; auto. }
+  intros H. specialize (G (arcs g0) (Ok (mkGraph (names g0) (nodes g0) []))).
+  fold step in H. rewrite H in G. apply G; auto.
+  simpl. split; [intros i j a [] | split; reflexivity].
+Qed.
+
+Theorem seq_init_strict g0 g :
+  Inv g0 -> self_arcs_ok g0 -> seq_init true g0 = Ok g -> strict_graph g.
+Proof.
+  intros HI Hself H. unfold seq_init in H.
+  destruct (refilter g0) as [g1|e] eqn:Er; [|discriminate].
+  destruct (refilter_strict g0 g1 Hself Er) as (Hst & En & Ed).
+  destruct (names g1) as [|nm rest] eqn:Enames; [inversion H; subst; exact Hst|].
+  assert (Hwin : windows_ok g1).
+  { intros n Hn. unfold gnode. rewrite Ed. apply (windows_ok_of_inv g0 HI). rewrite <- Ed. exact Hn. }
+  apply (strict_graph_set_depot_same g1 nm g Hst Hwin); auto.
+  - rewrite Ed. pose proof (inv_aligned g0 HI) as Ha. rewrite <- En in Ha.
+    destruct (nodes g0); simpl in *; [discriminate | lia].
+  - rewrite Enames. simpl. rewrite Nat.eqb_refl. reflexivity.
+Qed.
